@@ -26,6 +26,7 @@ type Env struct {
 	// (or the dial context ends).
 	DialGate chan struct{}
 
+	nextID        int
 	dialStarted   int
 	dialCancelled int
 	cond          *sync.Cond
@@ -43,11 +44,14 @@ func (e *Env) Conns() []*fakenet.Conn {
 	return append([]*fakenet.Conn(nil), e.conns...)
 }
 
+// Conn returns the connection with number i (nil if it does not exist).
 func (e *Env) Conn(i int) *fakenet.Conn {
 	e.mu.Lock()
 	defer e.mu.Unlock()
-	if i < len(e.conns) {
-		return e.conns[i]
+	for _, c := range e.conns {
+		if c.ID == i {
+			return c
+		}
 	}
 	return nil
 }
@@ -116,12 +120,20 @@ func (e *Env) Dial(ctx context.Context) (*fakenet.Conn, error) {
 		}
 	}
 	c := fakenet.New(e.Datagram)
+	// The connection number is assigned atomically; a failed dial gives its number back
+	// only if nothing else was dialled meanwhile (numbers of successful dials stay unique).
 	e.mu.Lock()
-	n := len(e.conns)
+	n := e.nextID
+	e.nextID++
 	c.ID = n
 	e.mu.Unlock()
 	if e.OnDial != nil {
 		if err := e.OnDial(n, c); err != nil {
+			e.mu.Lock()
+			if e.nextID == n+1 {
+				e.nextID = n
+			}
+			e.mu.Unlock()
 			return nil, err
 		}
 	}
